@@ -8,6 +8,8 @@ From J5V.proofs Require Import CodecDecProofs CodecDecQueryProofs JsonLexProofs.
 From J5V.proofs Require CodecDecStored CodecDecReorder CodecDecDenote CodecDecFull.
 From J5V.model Require CodecDecCost.
 From J5V.proofs Require CodecDecCostProofs CodecDecCostBound.
+From J5V.model Require CodecDecQueryCost.
+From J5V.proofs Require CodecDecQueryCostProofs.
 Import ListNotations.
 Local Open Scope N_scope.
 
@@ -146,13 +148,67 @@ Theorem C06_steps_per_call : forall orc e me f, CodecDecCostBound.bound_level or
 Proof. exact CodecDecCostBound.bound_all. Qed.
 Print Assumptions C06_steps_per_call.
 
-(* the query decoder: no separate step counter.  Its loops are structural recursions of the model — query_loop
-   over the list of keys, query_at over the components of a dotted path, the element loops over the value
-   list — so their iteration counts are the lengths of those lists by definition; the one non-structural
-   part, the descent on the text of a container-valued parameter, is object_body / oneof_body on that text's
-   tokens, bounded by C06_steps_per_call (at most tokens + 1 steps).  A single inequality for QueryToProto as a
-   whole is not stated. *)
-Definition C06_query_time_clause_unproved : Prop := True.
+(* the query decoder (QueryToProto): model/CodecDecQueryCost.v is model/CodecDecQuery.v with the same step counter
+   (same arms, same order).  Counted, one step each, on every path, errors included: every iteration of
+   decodeQuery's loop over the keys (keys without values included), every component of a dotted key visited
+   by propertyAtPath (the tail included), every iteration of the value loop of an array parameter, and every
+   step of decodeRoot's descent on the text of a container-valued parameter (the JSON counter above).
+   (1) the counter changes nothing: the first component is the Go-tied model of QueryToProto;
+   (2) for every query in every visiting order, every environment, every oracle and every outcome the count
+       is at most query_size kvs = sum over the keys of (length key + 3 + sum over its values of
+       (length value + 1)) = 3 * keys + key bytes + values + value bytes (C06_query_size_in_plain_terms):
+       linear in the size of the query.  The key bytes are part of the honest bound: a key of n dots makes
+       propertyAtPath visit n + 1 components.
+   The same limits as above apply to what one step is (scalar conversion and ToLowerCamel are linear in their
+   text; the model's hasValue / seen checks are list scans where Go uses maps). *)
+Theorem C06_query_step_counter_changes_nothing : forall orc e root kvs,
+  fst (CodecDecQueryCost.decode_query_c orc e root kvs) = decode_query orc e root kvs.
+Proof. exact CodecDecQueryCostProofs.decode_query_c_fst. Qed.
+Print Assumptions C06_query_step_counter_changes_nothing.
+
+Theorem C06_query_steps_linear_in_input : forall orc e root kvs,
+  (snd (CodecDecQueryCost.decode_query_c orc e root kvs) <= CodecDecQueryCost.query_size kvs)%nat.
+Proof. exact CodecDecQueryCostProofs.decode_query_steps. Qed.
+Print Assumptions C06_query_steps_linear_in_input.
+
+Theorem C06_query_size_in_plain_terms : forall kvs,
+  CodecDecQueryCost.query_size kvs =
+  (3 * length kvs + fold_right (fun kv n => length (fst kv) + n) 0 kvs
+   + fold_right (fun kv n => length (snd kv) + n) 0 kvs
+   + fold_right (fun kv n => fold_right (fun v k => length v + k) 0 (snd kv) + n) 0 kvs)%nat.
+Proof. exact CodecDecQueryCostProofs.query_size_plain. Qed.
+Print Assumptions C06_query_size_in_plain_terms.
+
+(* the time clause as one statement: both entry points, instrumented copies equal to the models, step counts
+   linear in the size of the input *)
+Definition C06_time_statement : Prop :=
+  (forall orc e root bs,
+     fst (CodecDecCost.decode_document_c orc e root bs) = decode_document orc e root bs /\
+     (snd (CodecDecCost.decode_document_c orc e root bs) <= length bs + 1)%nat) /\
+  (forall orc e root kvs,
+     fst (CodecDecQueryCost.decode_query_c orc e root kvs) = decode_query orc e root kvs /\
+     (snd (CodecDecQueryCost.decode_query_c orc e root kvs) <= CodecDecQueryCost.query_size kvs)%nat).
+Theorem C06_time_clause_step_counts : C06_time_statement.
+Proof.
+  exact (conj (fun orc e root bs => conj (CodecDecCostProofs.decode_document_c_fst orc e root bs)
+                                         (CodecDecCostBound.decode_document_steps orc e root bs))
+              (fun orc e root kvs => conj (CodecDecQueryCostProofs.decode_query_c_fst orc e root kvs)
+                                          (CodecDecQueryCostProofs.decode_query_steps orc e root kvs))).
+Qed.
+Print Assumptions C06_time_clause_step_counts.
+
+(* the pieces: a container-valued parameter costs at most the bytes of its (trimmed) text, propertyAtPath
+   at most one step per component beyond the work on the values *)
+Theorem C06_query_steps_container_parameter : forall orc e is_oneof ps v sub,
+  (snd (CodecDecQueryCost.param_body_c orc e is_oneof ps v sub) <= length v)%nat.
+Proof. exact CodecDecQueryCostProofs.param_body_c_le. Qed.
+Print Assumptions C06_query_steps_container_parameter.
+
+Theorem C06_query_steps_per_key : forall orc e parts props vals m st,
+  (snd (CodecDecQueryCost.query_at_c orc e props parts vals m st)
+   <= S (length parts) + CodecDecQueryCost.values_size vals)%nat.
+Proof. exact CodecDecQueryCostProofs.query_at_c_le. Qed.
+Print Assumptions C06_query_steps_per_key.
 
 (* non-vacuity: a recursive environment; a document exercising object, array, map, oneof
    (type-only and with a value), null members and a nested recursive value decodes to a
@@ -200,4 +256,18 @@ Example C06_example_steps :
   snd (CodecDecCost.decode_document_c ex_orc ex_env [78] ex_doc) = 25%nat /\
   length (fst (lex ex_doc)) = 29%nat /\ length ex_doc = 86%nat /\
   snd (CodecDecCost.decode_document_c ex_orc ex_env [78] [123;34;114;34;58;91;110;117;108;108;93;125]) = 3%nat.
+Proof. vm_compute. repeat split; reflexivity. Qed.
+
+(* the counter on the example queries: s=x & c.i=7 & r=a&r=b & i (no values) makes 4 (keys) + 1 + 2 + 1
+   (components) + 2 (array values) = 10 steps against a size of 26; the container parameter
+   c= {"s":"q"} makes 1 + 1 + 3 (descent) = 5 steps against a size of 15; two values for a scalar are
+   refused after 2 steps; and the results are those of the model *)
+Example C06_example_query_steps :
+  CodecDecQueryCost.decode_query_c ex_orc ex_env [78] [([115], [[120]]); ([99; 46; 105], [[55]]); ([114], [[97]; [98]]); ([105], [])] =
+    (Ok [(1, VStr [120]); (2, VList [VStr [97]; VStr [98]]); (5, VMsg [(6, VInt 7)])], 10%nat) /\
+  CodecDecQueryCost.query_size [([115], [[120]]); ([99; 46; 105], [[55]]); ([114], [[97]; [98]]); ([105], [])] = 26%nat /\
+  CodecDecQueryCost.decode_query_c ex_orc ex_env [78] [([99], [[32; 123; 34; 115; 34; 58; 34; 113; 34; 125]])] =
+    (Ok [(5, VMsg [(1, VStr [113])])], 5%nat) /\
+  CodecDecQueryCost.query_size [([99], [[32; 123; 34; 115; 34; 58; 34; 113; 34; 125]])] = 15%nat /\
+  snd (CodecDecQueryCost.decode_query_c ex_orc ex_env [78] [([115], [[120]; [121]])]) = 2%nat.
 Proof. vm_compute. repeat split; reflexivity. Qed.
